@@ -18,13 +18,15 @@ R6  which component of a geodesic result is used as what (azimuth = [0],
 from __future__ import annotations
 
 import ast
+import copy
 
+from ..algebra import normal_form
 from ..astutil import first_stmt, last_stmt  # noqa: F401
-from ..astutil import (ancestors, call_name, calls_in, guards_of, norm, stmt_of, stores_to,
+from ..astutil import (ancestors, call_name, calls_in, guards_of, norm, single_def_value, stmt_of, stores_to,
                        walk_no_nested)
 from ..cfg import CFG
-from ..resolve import callers_of
-from ..roles import check_geod_call, expr_role, geod_calls, wrapper_signature
+from ..resolve import callers_of, closure
+from ..roles import GEOD_SIG, check_geod_call, expr_role, geod_calls, wrapper_signature
 
 GT = 'trajectories/ground_track.py'
 MI = 'missions/mission.py'
@@ -234,17 +236,7 @@ def rule_track(ctx):
                 'non-monotonic query sequence)'), line=(writes[0].lineno if writes else meth.node.lineno),
                nontrivial=bool(writes))
     ctx.floor('C15-R7', nq, 6, 'GroundTrack query methods')
-    # R8 the mission distance is only ever the geodesic: nobody assigns gc_distance
-    nst = 0
-    for fi2 in prog.all_functions():
-        for t, st, how in stores_to(fi2.node):
-            if isinstance(t, ast.Attribute) and t.attr == 'gc_distance':
-                nst += 1
-                ctx.ob('C15-R8', fi2, f'`{norm(st)[:70]}`', False,
-                       'the cached great-circle distance is overwritten with a value that is not the WGS-84 geodesic between '
-                       'the airport positions (a stated schedule distance differs from it and is not symmetric)', line=st.lineno)
-    ctx.ob('C15-R8', (MI, 'Mission'), 'gc_distance is produced only by the geodesic property', nst == 0,
-           'no assignment to .gc_distance anywhere in the program' if nst == 0 else f'{nst} assignment(s)', nontrivial=False)
+    rule_slots(ctx)
     cont = m.func('GroundTrack.__contains__')
     r = [n for n in walk_no_nested(cont.node) if isinstance(n, ast.Return)]
     ok = len(r) == 1 and norm(r[0].value) in (
@@ -253,53 +245,7 @@ def rule_track(ctx):
     ctx.ob('C15-R4', cont, 'range is [first, last] cumulative distance', ok,
            norm(r[0].value) if ok else 'range test of the track changed', nontrivial=False)
 
-    # R5 leg coherence
-    def leg_of(kind, idx_expr):
-        t = norm(idx_expr)
-        if kind == 'azimuths':
-            if isinstance(idx_expr, ast.UnaryOp) and isinstance(idx_expr.op, ast.USub) \
-                    and isinstance(idx_expr.operand, ast.Constant):
-                return f'-{idx_expr.operand.value + 1}'
-        return t
-
-    nfwd = 0
-    for fi, c, kind in geod_calls(prog, [f for f in m.functions.values()]):
-        if kind != 'fwd' or len(c.args) < 4:
-            continue
-        nfwd += 1
-        legs = {}
-        a0 = c.args[0]
-        # start point: self.waypoints[i].longitude or a local bound to self.waypoints[i]
-        def wp_index(e):
-            if isinstance(e, ast.Attribute):
-                e = e.value
-            if isinstance(e, ast.Name):
-                from ..astutil import single_def_value
-                d = single_def_value(fi.node, e.id)
-                e = d if d is not None else e
-            if isinstance(e, ast.Subscript) and norm(e.value) == 'self.waypoints':
-                return e.slice
-            return None
-        i0, i1 = wp_index(c.args[0]), wp_index(c.args[1])
-        if i0 is not None:
-            legs['start lon'] = leg_of('waypoints', i0)
-        if i1 is not None:
-            legs['start lat'] = leg_of('waypoints', i1)
-        az = c.args[2]
-        if isinstance(az, ast.Subscript) and norm(az.value) == 'self.azimuths':
-            legs['azimuth'] = leg_of('azimuths', az.slice)
-        d = c.args[3]
-        if isinstance(d, ast.BinOp) and isinstance(d.op, ast.Sub) and isinstance(d.right, ast.Subscript) \
-                and norm(d.right.value) == 'self.index':
-            legs['distance origin'] = leg_of('index', d.right.slice)
-        if len(legs) < 4:
-            ctx.undecided('C15-R5', fi, norm(c)[:80], f'leg components not recognised: {legs}')
-        ok = len(set(legs.values())) == 1
-        ctx.ob('C15-R5', fi, f'fwd legs {legs}', ok,
-               'start point, azimuth and distance origin belong to one leg' if ok else
-               'the forward geodesic starts at one waypoint but uses the azimuth / distance origin of another '
-               'leg: points leave the great circle', line=c.lineno)
-    ctx.floor('C15-R5', nfwd, 2, 'forward geodesic calls in ground_track.py')
+    rule_legs(ctx)
 
     # R6 components
     ini = m.func('GroundTrack.__init__')
@@ -359,6 +305,343 @@ def rule_track(ctx):
     ctx.ob('C15-R6', gd, 'distance is between origin and destination', ok,
            'origin pair then destination pair' if ok else 'end points of the mission distance are mixed up',
            nontrivial=False)
+
+
+# ----------------------------------------------------------------- R5 -----
+class _Subst(ast.NodeTransformer):
+    def __init__(self, mapping):
+        self.mapping = mapping
+
+    def visit_Name(self, n):
+        if isinstance(n.ctx, ast.Load) and n.id in self.mapping:
+            return copy.deepcopy(self.mapping[n.id])
+        return n
+
+
+def _resolve_locals(fi, e: ast.AST, depth: int = 0) -> ast.AST:
+    """e with every single-definition local of fi replaced by its defining expression (parameters and locals
+    bound to call results stay)"""
+    if depth > 4:
+        return e
+    mapping = {}
+    for x in ast.walk(e):
+        if isinstance(x, ast.Name) and isinstance(x.ctx, ast.Load) and x.id not in fi.params and x.id not in mapping:
+            d = single_def_value(fi.node, x.id)
+            # a local bound to a call result is one opaque value: it keeps its name
+            if d is not None and not any(isinstance(y, ast.Call) for y in ast.walk(d)):
+                mapping[x.id] = _resolve_locals(fi, d, depth + 1)
+    if not mapping:
+        return e
+    return _Subst(mapping).visit(copy.deepcopy(e))
+
+
+def _bind_call(callee, call: ast.Call):
+    """{parameter name: argument expression} of a resolved call, or None when the receiver is another object"""
+    params = list(callee.params)
+    f = call.func
+    if params[:1] in (['self'], ['cls']):
+        if not isinstance(f, ast.Attribute):
+            return None
+        recv = norm(f.value)
+        if recv not in ('self', 'cls', 'super()') and not recv[:1].isupper():
+            return None             # another instance: `self.` inside the callee is not the caller's self
+        if recv[:1].isupper() and params[0] == 'self':
+            return None
+        params = params[1:]
+    elif isinstance(f, ast.Attribute) and norm(f.value) not in ('self', 'cls') and not norm(f.value)[:1].isupper() \
+            and callee.cls is not None:
+        return None
+    if any(isinstance(a, ast.Starred) for a in call.args) or any(k.arg is None for k in call.keywords):
+        return None
+    out = dict(zip(params, call.args))
+    for k in call.keywords:
+        if k.arg in params:
+            out[k.arg] = k.value
+    a = callee.node.args
+    pos = a.posonlyargs + a.args
+    for arg, dflt in list(zip(pos[len(pos) - len(a.defaults):], a.defaults)) + \
+            [(x, d) for x, d in zip(a.kwonlyargs, a.kw_defaults) if d is not None]:
+        out.setdefault(arg.arg, dflt)
+    return out
+
+
+def _idx_key(e: ast.AST, shift: int = 0) -> str:
+    """canonical text of an index expression (+ shift), so that `pos - 1`, `-1 + pos` and `pos - 2 + 1` agree"""
+    if shift:
+        e = ast.BinOp(left=e, op=ast.Add(), right=ast.Constant(shift))
+    try:
+        return str(normal_form(e, {}))
+    except Exception:
+        return norm(e)
+
+
+def _leg_of_slot(slot: int, e: ast.AST):
+    """which leg (named by the index of its start waypoint) a forward-geodesic argument refers to, or None"""
+    if slot in (0, 1):
+        if isinstance(e, ast.Attribute):
+            e = e.value
+        if isinstance(e, ast.Subscript) and norm(e.value) == 'self.waypoints':
+            return _idx_key(e.slice)
+        return None
+    if slot == 2:
+        if isinstance(e, ast.Subscript) and norm(e.value) == 'self.azimuths':
+            i = e.slice
+            neg = isinstance(i, ast.UnaryOp) and isinstance(i.op, ast.USub) and isinstance(i.operand, ast.Constant)
+            # azimuths has one entry per leg: counted from the end, entry -k belongs to the leg that starts at
+            # waypoint -(k+1)
+            return _idx_key(i, -1 if neg else 0)
+        return None
+    if isinstance(e, ast.BinOp) and isinstance(e.op, ast.Sub) and isinstance(e.right, ast.Subscript) \
+            and norm(e.right.value) == 'self.index':
+        return _idx_key(e.right.slice)
+    return None
+
+
+SLOT_NAMES = ('start lon', 'start lat', 'azimuth', 'distance origin')
+
+
+def rule_legs(ctx):
+    """R5.  Every forward-geodesic evaluation of the ground track - written in a GroundTrack method or reached from
+    one through helpers that forward their parameters - is judged with the arguments as they are at the outermost
+    call site: start waypoint, leg azimuth and the cumulative distance subtracted must belong to one leg."""
+    prog = ctx.prog
+    m = prog.module(GT)
+    gt_fns = list(m.functions.values())
+    reach = closure(prog, gt_fns)
+    judged = []
+
+    def fwd_slots(c: ast.Call):
+        _, kw = GEOD_SIG['fwd']
+        out = []
+        for i in range(4):
+            a = c.args[i] if i < len(c.args) and not any(isinstance(x, ast.Starred) for x in c.args[:i + 1]) \
+                else next((k.value for k in c.keywords if k.arg == kw[i]), None)
+            if a is None:
+                return None
+            out.append(a)
+        return out
+
+    def judge(fi, slots, site, via, depth):
+        slots = [_resolve_locals(fi, s) for s in slots]
+        legs = [_leg_of_slot(i, s) for i, s in enumerate(slots)]
+        own = set(fi.params) - {'self', 'cls'}
+        open_ = [i for i, l in enumerate(legs) if l is None]
+        from_params = [i for i in open_ if any(isinstance(x, ast.Name) and x.id in own for x in ast.walk(slots[i]))]
+        if open_ and from_params and depth < 4:
+            # a helper that forwards its parameters: judge every call of it instead
+            callers = callers_of(prog, fi)
+            if not callers:
+                ctx.note(f'C15-R5: {fi.qualname} forwards parameters to the forward geodesic and has no resolved caller')
+                return
+            for caller, call in callers:
+                if not caller.file.endswith(GT):
+                    ctx.note(f'C15-R5: call of {fi.qualname} from {caller.file} {caller.qualname} is not a ground-track leg')
+                    continue
+                bound = _bind_call(fi, call)
+                if bound is None:
+                    ctx.undecided('C15-R5', caller, norm(call)[:80], f'cannot bind the arguments of {fi.qualname}')
+                judge(caller, [_Subst(bound).visit(copy.deepcopy(s)) for s in slots], call,
+                      via + [fi.qualname], depth + 1)
+            return
+        if open_:
+            ctx.undecided('C15-R5', fi, norm(site)[:80], 'leg components not recognised: ' +
+                          ', '.join(f'{SLOT_NAMES[i]} = `{norm(slots[i])[:40]}`' for i in open_))
+        named = dict(zip(SLOT_NAMES, legs))
+        ok = len(set(legs)) == 1
+        judged.append(fi)
+        ctx.ob('C15-R5', fi, f'fwd legs {named}' + (f' via {" <- ".join(via)}' if via else ''), ok,
+               'start point, azimuth and distance origin belong to one leg' if ok else
+               'the forward geodesic starts at one waypoint but uses the azimuth / distance origin of another '
+               'leg: points leave the great circle', line=site.lineno)
+
+    for fi, c, kind in geod_calls(prog, reach):
+        if kind != 'fwd':
+            continue
+        slots = fwd_slots(c)
+        if slots is None:
+            if fi.file.endswith(GT):
+                ctx.undecided('C15-R5', fi, norm(c)[:80], 'arguments of the forward geodesic not recognised')
+            continue
+        if not fi.file.endswith(GT):
+            # only as a helper of the ground track: its own arguments must come from parameters
+            own = set(fi.params) - {'self', 'cls'}
+            if all(_leg_of_slot(i, _resolve_locals(fi, s)) is None and not
+                   any(isinstance(x, ast.Name) and x.id in own for x in ast.walk(_resolve_locals(fi, s)))
+                   for i, s in enumerate(slots)):
+                continue
+        judge(fi, slots, c, [], 0)
+    ctx.floor('C15-R5', len(judged), 2, 'forward geodesic evaluations of the ground track')
+
+
+# ----------------------------------------------------------------- R8 -----
+def _const_strings(fn: ast.AST, e: ast.AST) -> set[str] | None:
+    """the strings e can evaluate to, when that is visible: a literal, a single-definition local bound to one, or
+    the target of a loop over a literal sequence of strings"""
+    if isinstance(e, ast.Constant):
+        return {e.value} if isinstance(e.value, str) else set()
+    if isinstance(e, ast.Name):
+        d = single_def_value(fn, e.id)
+        if d is not None:
+            return _const_strings(fn, d)
+        for n in walk_no_nested(fn):
+            if isinstance(n, (ast.For, ast.comprehension)) and isinstance(n.target, ast.Name) and n.target.id == e.id \
+                    and isinstance(n.iter, (ast.Tuple, ast.List, ast.Set)) \
+                    and all(isinstance(x, ast.Constant) for x in n.iter.elts):
+                return {x.value for x in n.iter.elts if isinstance(x.value, str)}
+    return None
+
+
+def _instance_dict_owner(fn: ast.AST, e: ast.AST, depth: int = 0):
+    """X when e denotes the attribute dictionary of X: `X.__dict__`, `vars(X)`, or a local bound to one"""
+    if isinstance(e, ast.Attribute) and e.attr == '__dict__':
+        return e.value
+    if isinstance(e, ast.Call) and call_name(e) == 'vars' and len(e.args) == 1:
+        return e.args[0]
+    if isinstance(e, ast.Name) and depth < 3:
+        d = single_def_value(fn, e.id)
+        if d is not None:
+            return _instance_dict_owner(fn, d, depth + 1)
+    return None
+
+
+def slot_writes(fn: ast.AST):
+    """Every construct in fn that can put a value into an attribute slot of an object without going through a
+    property's own function: (node, owner expr, names | None, how).  names is the set of attribute names written
+    when visible, None when the name is computed."""
+    out = []
+
+    def dict_literal_keys(d):
+        if isinstance(d, ast.Dict):
+            ks = set()
+            for k in d.keys:
+                if k is None:
+                    return None
+                s = _const_strings(fn, k)
+                if s is None:
+                    return None
+                ks |= s
+            return ks
+        if isinstance(d, ast.Call) and call_name(d) == 'dict' and not d.args and all(k.arg for k in d.keywords):
+            return {k.arg for k in d.keywords}
+        return None
+
+    for t, st, how in stores_to(fn):
+        if how == 'del':
+            continue            # dropping a cached value only makes the property compute it again
+        if isinstance(t, ast.Attribute):
+            if t.attr == '__dict__':
+                ks = dict_literal_keys(st.value) if getattr(st, 'value', None) is not None else None
+                out.append((st, t.value, ks, f'`{norm(t)}` replaced / merged'))
+            else:
+                out.append((st, t.value, {t.attr}, 'attribute store'))
+        elif isinstance(t, ast.Subscript):
+            owner = _instance_dict_owner(fn, t.value)
+            if owner is not None:
+                out.append((st, owner, _const_strings(fn, t.slice), 'store into the instance dictionary'))
+    for c in calls_in(fn):
+        cn = call_name(c)
+        f = c.func
+        if cn == 'setattr' and len(c.args) == 3:
+            out.append((c, c.args[0], _const_strings(fn, c.args[1]), 'setattr'))
+        elif isinstance(f, ast.Attribute) and f.attr == '__setattr__':
+            if len(c.args) == 3:        # object.__setattr__(x, name, v) / Base.__setattr__(x, name, v)
+                out.append((c, c.args[0], _const_strings(fn, c.args[1]), f'{cn}'))
+            elif len(c.args) == 2:      # x.__setattr__(name, v) / super().__setattr__(name, v)
+                owner = ast.Name('self', ast.Load()) if isinstance(f.value, ast.Call) else f.value
+                out.append((c, owner, _const_strings(fn, c.args[0]), f'{cn}'))
+        elif isinstance(f, ast.Attribute) and f.attr in ('update', 'setdefault', '__setitem__', '__ior__'):
+            owner = _instance_dict_owner(fn, f.value)
+            if owner is None:
+                continue
+            if f.attr in ('setdefault', '__setitem__'):
+                ks = _const_strings(fn, c.args[0]) if c.args else None
+            else:
+                ks = {k.arg for k in c.keywords if k.arg}
+                unknown = any(k.arg is None for k in c.keywords)
+                for a in c.args:
+                    d = dict_literal_keys(a)
+                    if d is None:
+                        unknown = True
+                    else:
+                        ks |= d
+                if unknown:
+                    ks = None
+            out.append((c, owner, ks, f'instance dictionary .{f.attr}()'))
+    return out
+
+
+_R8_CONTROL = """
+def control(m, qr, name):
+    m.gc_distance = qr.distance
+    m.__dict__['gc_distance'] = qr.distance
+    vars(m)['gc_distance'] = qr.distance
+    d = m.__dict__
+    d['gc_distance'] = qr.distance
+    m.__dict__.update(gc_distance=qr.distance)
+    m.__dict__.update({'gc_distance': qr.distance})
+    m.__dict__ |= {'gc_distance': qr.distance}
+    vars(m).setdefault('gc_distance', qr.distance)
+    setattr(m, 'gc_distance', qr.distance)
+    object.__setattr__(m, 'gc_distance', qr.distance)
+    for k in ('gc_distance',):
+        setattr(m, k, qr.distance)
+    setattr(m, name, qr.distance)
+    m.other = 1
+"""
+
+
+def rule_slots(ctx):
+    """R8.  The mission distance is the geodesic between the airport positions only if the three memoised
+    properties it is made of are filled by their own functions: nothing in the program may write their slots."""
+    prog = ctx.prog
+    mi = prog.module(MI)
+    mission = mi.cls('Mission')
+    slots = {n for c in [mission] + [k for k in prog.subclasses_of('Mission') if k is not mission]
+             for n, meth in c.methods.items() if any('cached_property' in d for d in meth.decorators())}
+    ctx.floor('C15-R8/slots', len(slots & {'gc_distance', 'origin_position', 'destination_position'}), 1,
+              'memoised properties of Mission (gc_distance and the positions it is computed from)')
+    if 'gc_distance' not in slots:
+        gd = mission.find_method('gc_distance')
+        if gd is None or not any('property' in d for d in gd.decorators()):
+            ctx.undecided('C15-R8', (MI, 'Mission'), 'gc_distance', 'no longer a (cached) property of Mission')
+    # positive control: the matcher sees every spelling of a slot write
+    tree = ast.parse(_R8_CONTROL)
+    for n in ast.walk(tree):
+        for ch in ast.iter_child_nodes(n):
+            ch._parent = n
+    cw = slot_writes(tree.body[0])
+    definite = [w for w in cw if w[2] is not None and 'gc_distance' in w[2]]
+    dynamic = [w for w in cw if w[2] is None]
+    ctx.control('C15-R8', len(definite) == 11 and len(dynamic) == 1,
+                f'11 spellings of a write to a memoised slot and 1 computed name (matched {len(definite)} + {len(dynamic)})')
+    from ..resolve import expr_class
+    nst = 0
+    for fi2 in prog.all_functions(src_only=(ctx.tier != 'thorough')):
+        for node, owner, names, how in slot_writes(fi2.node):
+            if names is None:
+                # computed attribute name: only relevant when the object is known to be a Mission
+                oc = expr_class(prog, fi2, owner)
+                if oc is not None and oc.is_subclass_of('Mission'):
+                    ctx.undecided('C15-R8', fi2, norm(node)[:80],
+                                  f'{how} with a computed attribute name on a Mission: cannot tell whether a memoised '
+                                  'property is overwritten')
+                continue
+            hit = sorted(names & slots)
+            if not hit:
+                continue
+            if how == 'attribute store' and fi2.cls is not None and not fi2.cls.is_subclass_of('Mission') \
+                    and norm(owner) == 'self':
+                continue        # another class's own attribute of the same name
+            nst += 1
+            ctx.ob('C15-R8', fi2, f'`{norm(node)[:70]}`', False,
+                   f'{how} fills the memoised property {"/".join(hit)} of the mission from outside its own function: '
+                   'the cached great-circle distance is then a value that is not the WGS-84 geodesic between '
+                   'the airport positions (a stated schedule distance differs from it and is not symmetric)',
+                   line=node.lineno)
+    ctx.ob('C15-R8', (MI, 'Mission'), f'{"/".join(sorted(slots))} are produced only by their own functions', nst == 0,
+           'no attribute store, instance-dictionary store/update, setattr or __setattr__ of these names anywhere in '
+           'the program' if nst == 0 else f'{nst} write(s)', nontrivial=False)
+
 
 
 def _in(n, anc):
